@@ -332,7 +332,7 @@ func (g *gen) signature() string {
 		}
 	}
 	// sometimes a parameter is named like a package that only the results use
-	if named == 0 && len(ps) > 0 && len(rs) > 0 && g.tp.Int(3) == 0 {
+	if named != 1 && len(ps) > 0 && len(rs) > 0 && g.tp.Int(2) == 0 {
 		for _, q := range []string{"alpha", "foo", "bar", "widget", "time", "io", "context", "yfoo"} {
 			inRes, inPar := false, false
 			for _, r := range rs {
